@@ -638,6 +638,7 @@ def run_history(H, vars_, tid, cfg, step_hook=None):
                 e["checks"] = cnt
                 fault = None
         events.append(e)
+    meta["__ever_held__"] = ever_held          # for the probe battery (continue_history): cores are judged against these
     return {"tid": tid, "vars": vars_, "maxid": max([nid, 1] + list(S)), "ev": events}, S, meta
 
 
@@ -760,12 +761,15 @@ def continue_history(PH, S, meta, vars_, cfg):
                 e["e"] = op[2]
                 e["ret"] = [[vbits(bool(getattr(sol, call)(B(op[2]), **xk)), None)]]
             elif call == "unsat_core":
+                # every constraint this solver (or a child of a composite) has held so far, as in run_history
+                eh = meta.setdefault("__ever_held__", {}).setdefault(s, {})
                 held = list(sol.constraints)
                 for ch in getattr(sol, "_solver_list", []) or []:
                     held.extend(getattr(ch, "constraints", []))
-                e["scons"] = [TM.ser(c, ann=bool(c.annotations)) for c in held]
-                e["loose"] = True      # no record of every constraint ever held by a derived solver: membership is
-                #                        judged against what it holds now (see SolverAbs)
+                for c in held:
+                    if c.hash() not in eh:
+                        eh[c.hash()] = TM.ser(c, ann=bool(c.annotations))
+                e["scons"] = list(eh.values())
                 core = sol.unsat_core()
                 e["rets"] = [TM.ser(c, ann=bool(c.annotations)) if isinstance(c, claripy.ast.Base)
                              else ["NOTAST", type(c).__name__, [], []] for c in core]
@@ -777,6 +781,18 @@ def continue_history(PH, S, meta, vars_, cfg):
             e["exc"] = type(ex).__name__
             if os.environ.get("VERIF_TB"):
                 import traceback; traceback.print_exc()
+        if kw.get("track"):
+            # probes simplify too (min / max / eval): what the solver holds afterwards counts as held
+            try:
+                eh = meta.setdefault("__ever_held__", {}).setdefault(s, {})
+                held = list(sol.constraints)
+                for ch in getattr(sol, "_solver_list", []) or []:
+                    held.extend(getattr(ch, "constraints", []))
+                for c in held:
+                    if c.hash() not in eh:
+                        eh[c.hash()] = TM.ser(c, ann=bool(c.annotations))
+            except Exception:  # noqa: BLE001
+                pass
         events.append(e)
     return events
 
